@@ -94,7 +94,23 @@ class Clean:
                 if t[0] == 'cls' and t[1].endswith('Indentizer') and e.args:
                     r = self.clean_list(fn, e.args[0], depth + 1)
                     return (r[0], 'per-line map (Indentizer.to_list, C18.map) of ' + r[1])
+            # a function of the package that hands out a list it has built itself: judged on its return values
+            sym = ctx.prog.resolve_expr_symbol(fn.module, f) if isinstance(f, (ast.Name, ast.Attribute)) else None
+            if isinstance(sym, FuncInfo) and sym is not fn and sym.module.name.startswith('dznpy') and depth < 6 and \
+                    not any(isinstance(y, (ast.Yield, ast.YieldFrom)) for y in ast.walk(sym.node)):
+                rets = [r_ for r_ in iter_own_nodes(sym.node) if isinstance(r_, ast.Return) and r_.value is not None]
+                if rets:
+                    for r_ in rets:
+                        rr = self.clean_list(sym, r_.value, depth + 1)
+                        if not rr[0]:
+                            return rr[0], f'{sym.qualname}(): ' + rr[1]
+                    return True, f'result of {sym.qualname}(), built from clean pieces only'
             return None, f'call `{ast.unparse(e)[:50]}` is not a known producer of line lists'
+        if isinstance(e, ast.BoolOp) and isinstance(e.op, ast.Or):
+            rs = [self.clean_list(fn, v, depth + 1) for v in e.values]
+            if all(r[0] for r in rs):
+                return True, 'either alternative of `or` is clean'
+            return next(r for r in rs if not r[0])
         if isinstance(e, ast.Attribute):
             t = strip_opt(self.abs.type_at(fn, e.value, e) if self.ctx.prog.parent(e) is not None
                           else env.type_of(e.value))
@@ -130,6 +146,8 @@ class Clean:
         if not sites:
             return None, f'`{name}` has no local definition'
         for s in sites:
+            if s[0] == 'ann' and len(s) > 2 and s[2] is not None:
+                s = ('expr', s[2])          # `name: List[str] = <value>`
             if s[0] != 'expr':
                 return None, f'`{name}` is bound by a loop / unpacking'
             r = self.clean_list(fn, s[1], depth + 1)
@@ -157,6 +175,15 @@ class Clean:
         if s is not None:
             ok = not any(ch in s for ch in '\n\r\x0b\x0c\x1c\x1d\x1e\x85  ')
             return ok, 'constant without line break' if ok else f'constant {s!r} contains a line break'
+        if isinstance(e, ast.Name) and self.ctx.prog.parent(e) is not None:
+            # `x.splitlines() or [x]`: the list [x] is only taken when x has no line at all, i.e. x == ''
+            lst = self.ctx.prog.parent(e)
+            bo = self.ctx.prog.parent(lst) if isinstance(lst, ast.List) and len(lst.elts) == 1 else None
+            if isinstance(bo, ast.BoolOp) and isinstance(bo.op, ast.Or) and lst in bo.values[1:]:
+                first = bo.values[0]
+                if isinstance(first, ast.Call) and isinstance(first.func, ast.Attribute) and first.func.attr == 'splitlines' and \
+                        isinstance(first.func.value, ast.Name) and first.func.value.id == e.id and bo.values.index(lst) == 1:
+                    return True, 'the empty string (guarded: taken only when the string has no line to split off)'
         if isinstance(e, ast.Name) and at is not None:
             # a string known to be empty at this point:  len(x) > 0 is false / not x
             for cond, pol in self.abs.facts_at(at):
@@ -248,14 +275,21 @@ def check(ctx):
         run.error('C17.provenance', tb.module.name, 'TextBlock', 'append', 'TextBlock.append vanished')
     else:
         has_empty_branch = False
-        for n in iter_own_nodes(app.node):
+        # append itself and the line-producing helpers of the module it calls
+        scope_fns = [app]
+        for c_ in iter_own_nodes(app.node):
+            if isinstance(c_, ast.Call) and isinstance(c_.func, (ast.Name, ast.Attribute)):
+                sy_ = prog.resolve_expr_symbol(app.module, c_.func)
+                if isinstance(sy_, FuncInfo) and sy_.module is app.module and sy_ not in scope_fns:
+                    scope_fns.append(sy_)
+        for app_, n in [(f_, x_) for f_ in scope_fns for x_ in iter_own_nodes(f_.node)]:
             if isinstance(n, ast.Call) and isinstance(n.func, ast.Attribute) and n.func.attr == 'append' and n.args:
-                r = cl.clean_str(app, n.args[0], at=n)
+                r = cl.clean_str(app_, n.args[0], at=n)
                 if r[0] and 'empty string' in r[1]:
                     has_empty_branch = True
             if isinstance(n, ast.List) and len(n.elts) == 1 and isinstance(n.elts[0], ast.Name):
                 # `[s]` as the lines of an empty s (the alternative of `s.splitlines() if s else [s]`)
-                r = cl.clean_str(app, n.elts[0], at=n.elts[0])
+                r = cl.clean_str(app_, n.elts[0], at=n.elts[0])
                 if r[0] and 'empty string' in r[1]:
                     has_empty_branch = True
         run.add('C17.provenance', app.module.name, app.qualname, 'blank-line branch', has_empty_branch,
